@@ -698,7 +698,11 @@ func init() {
 			if e == nil {
 				return m.ts.Zero(rt)
 			}
-			return e.Args[m.constIntArg(instr, 2, args[2])]
+			if ai := m.constIntArg(instr, 2, args[2]); ai < len(e.Args) {
+				return e.Args[ai]
+			}
+			m.problem("evArg: event %q has no argument %d", constStringArg(instr, 0), m.constIntArg(instr, 2, args[2]))
+			return m.ts.Zero(rt)
 		},
 		"evRet": func(m *Machine, st *State, fr *Frame, instr ssa.Instruction, fn *ssa.Function, args []Value) Value {
 			if st.opaque != 0 {
